@@ -19,7 +19,7 @@ CLAIMED = {
                 "union / intersection / generic merge(op) / difference / complement / new_from return the canonical range list of "
                 "exactly the specified set for ALL canonical inputs of any size; unique-normal-form theorem Canon.ext; the models are "
                 "transliterations of src/ranges/mod.rs and src/moc/range/op/*.rs and are run against the real code on every check "
-                "(exhaustive small scope + boundary-biased random, 9 (quantity,width) combinations, 6 source kinds).",
+                "(exhaustive small scope + boundary-biased random, 9 (quantity,width) combinations, 8 source kinds).",
         "design_ref": "DESIGN.md §4 C01, §10",
         "note": TB,
         "technique": "Lean 4 proof over an executable model + differential correspondence check",
